@@ -195,6 +195,13 @@ def run(tier: str, rep: Report):
                 feat = "linetable/line-entry-inside-multi-unit-instruction"
         return f"{PID}/{'+'.join(sorted(c.split('.')[1] for c in clauses))}/{feat}"
 
+    def corrupt(e):
+        if e.get("kind") != "encode" or e.get("src") != "decoded" or not e["rt"]["ran"] or not e["rt"]["same"]:
+            return None
+        e["rt"]["same"] = False
+        return e
+
+    df.negative_control(rep, files, "Trace_Encode", corrupt, ("P01.identical",))
     df.classify(rep, fails, ("P01.",), PID, keyfn)
     for v in ("38",):
         for c in gen[v][:: max(1, len(gen[v]) // 2)][:2]:
